@@ -33,7 +33,7 @@ ASSUMPTIONS = [
     "reference ordered-set + TTL model in this file (insertion order of survivors; TTL merged by union/intersection/update/add(ttl))",
     "case-insensitivity of embedded names is demanded for the RFC 4034 §6.2 types (minus NSEC); LP and CH A are owned by C15",
 ]
-REQUIRED = ["mon.immutability_attack", "mon.deep_walk", "mon.deep_walk_other_producers", "mon.eq_hash_order", "mon.set_step", "mon.rdataset_step", "mon.immutable_rdataset_mutator", "mon.immutable_rdataset_source_mutated", "mon.callers_mutable_arguments"]
+REQUIRED = ["mon.immutability_attack", "mon.deep_walk", "mon.deep_walk_other_producers", "mon.eq_hash_order", "mon.set_step", "mon.rdataset_step", "mon.immutable_rdataset_mutator", "mon.immutable_rdataset_source_mutated", "mon.callers_mutable_arguments", "mon.generic_twin_equality"]
 BUDGET = {"quick": 40.0, "thorough": 420.0}
 
 SINGLETONS = {5, 6, 39, 47, 30}  # CNAME SOA DNAME NSEC NXT
@@ -147,6 +147,20 @@ def check_value_immutability(ctx, val):
         ctx.violation(f"constructor-rejects-wellformed:{t}", repr(e), case)
         return None
     w0 = rd.to_wire() if not val.has_relative() else None
+    if w0 is not None and t != "UNKNOWN":
+        # the same record held as generic rdata (what to_generic() gives, what a peer without the type's class would hold): same
+        # class, type and canonical encoding, hence equal, same hash, one member of a set
+        try:
+            if rd.to_digestable() == w0:
+                g = rd.to_generic()
+                ctx.count("mon.generic_twin_equality")
+                rs = dns.rdataset.Rdataset(rd.rdclass, rd.rdtype, rd.covers() if hasattr(rd, "covers") else 0)
+                rs.add(rd, 300)
+                rs.add(g, 300)
+                if not (g == rd) or not (rd == g) or (g != rd) or hash(g) != hash(rd) or len(rs) != 1 or not (g <= rd and g >= rd):
+                    ctx.violation(f"equality-not-canonical-encoding:generic-twin:{t}", f"== {g == rd}/{rd == g}, != {g != rd}, hash equal {hash(g) == hash(rd)}, set size {len(rs)}", case)
+        except dns.exception.DNSException:
+            pass
     attack(ctx, rd, t, case)
     bad = []
     ctx.count("mon.deep_walk")
